@@ -15,6 +15,7 @@ import PyTough.Proofs.ListingHistory
 import PyTough.Proofs.ListingFile
 import PyTough.Proofs.ListingSeriesStep
 import PyTough.Proofs.ListingSeriesTimes
+import PyTough.Proofs.ListingSeriesTerm
 
 namespace Props.C06
 open Py Model Model.Listing Proofs.History Proofs.SeriesStep Proofs.SeriesTimes
@@ -220,6 +221,78 @@ theorem skipto_progresses (kws : List Str) (start : Nat) (l : Str) (r : List Str
   Proofs.File.skipTo_progress kws start l r n
 
 example : skipToNonblankL [[' ', '\n'], ['\n']] 0 = none ∧ (skipToNonblankL [[' ', '\n'], ['x', '\n']] 0).isSome = true := by decide
+
+/-! ### the whole call: it fails to return exactly when the read at ONE result position fails to return -/
+
+/-- converting the selection (`ordered_selection`: table names, row names, reversed names, row_line and short-output indices,
+    sorting) never spins, for any reader and any selection -/
+theorem ordered_selection_never_spins (s : Rd) (items : List Item) : orderedSelection s items ≠ .error .diverges :=
+  Proofs.SeriesTerm.orderedSelection_nodiv s items
+
+/-- Whole call, every simulator, any selection: history() does not return **iff** the selection is non-empty and there is a
+    result position `j` such that the reads at all earlier positions returned and the read at position `j` — which depends on
+    that position alone (`valuesAt`, it seeks there first) — does not return.  So termination of the call is termination of at
+    most `len(_pos)` independent per-position reads; nothing else in the call (the selection, the loop over the positions, the
+    bookkeeping of indices) can spin. -/
+theorem history_spins_iff_some_position_spins (items : List Item) (short : Bool) (env : Rd) (c : Cur) :
+    historyC items short env c = .error .diverges ↔
+      ∃ tsel, orderedSelection env items = .ok tsel ∧ tsel.isEmpty = false ∧
+        ∃ j pb, (resultPositions env)[j]? = some pb ∧
+          valuesAt env tsel short (fileTablesOf env) env pb j = .error .diverges ∧
+          ∀ j' pb', j' < j → (resultPositions env)[j']? = some pb' →
+            ∃ h, valuesAt env tsel short (fileTablesOf env) env pb' j' = .ok h := by
+  rw [historyC_error_iff, visitAll_error_iff_exists]
+  constructor
+  · intro h
+    rcases h with h | h
+    · exact absurd h (ordered_selection_never_spins env items)
+    · exact h
+  · intro h; exact .inr h
+where
+  visitAll_error_iff_exists : (orderedSelection env items = .error .diverges ∨
+      ∃ tsel, orderedSelection env items = .ok tsel ∧ tsel.isEmpty = false ∧
+        visitAll (valuesAt env tsel short (fileTablesOf env) env) (resultPositions env) 0 = .error .diverges) =
+    (orderedSelection env items = .error .diverges ∨
+      ∃ tsel, orderedSelection env items = .ok tsel ∧ tsel.isEmpty = false ∧
+        ∃ j pb, (resultPositions env)[j]? = some pb ∧
+          valuesAt env tsel short (fileTablesOf env) env pb j = .error .diverges ∧
+          ∀ j' pb', j' < j → (resultPositions env)[j']? = some pb' →
+            ∃ h, valuesAt env tsel short (fileTablesOf env) env pb' j' = .ok h) := by
+    congr 1
+    apply propext
+    constructor
+    · intro ⟨tsel, h1, h2, h3⟩
+      obtain ⟨j, pb, a, b, d⟩ := (visitAll_error_iff _ _ 0 _).mp h3
+      exact ⟨tsel, h1, h2, j, pb, a, by simpa using b, fun j' pb' x y => by simpa using d j' pb' x y⟩
+    · intro ⟨tsel, h1, h2, j, pb, a, b, d⟩
+      exact ⟨tsel, h1, h2, (visitAll_error_iff _ _ 0 _).mpr ⟨j, pb, a, by simpa using b, fun j' pb' x y => by simpa using d j' pb' x y⟩⟩
+
+/-- One table at one result position, every simulator, exactly: reading the selected lines of table `tn` does not return
+    **iff** the table is known, has a column, and from the file position on no line — nor the `''` read at end of file — shows the
+    number of floats `skip_to_results_line` waits for.  (On any file where a results line of the table follows, it returns.) -/
+theorem history_table_spins_iff (tn : String) (ts : List Sel) (env : Rd) (c : Cur) :
+    historyTable tn ts env c = .error .diverges ↔
+      ∃ t, env.tables.lookup tn = some t ∧ t.cols ≠ [] ∧
+        isResultsLine [] (Proofs.SeriesTerm.expectedFloats tn t.cols) = false ∧
+        ∀ l ∈ c.pos.rest, isResultsLine (strip l) (Proofs.SeriesTerm.expectedFloats tn t.cols) = false :=
+  Proofs.SeriesTerm.historyTable_diverges_iff tn ts env c
+
+/-- `skip_to_results_line` spins exactly when neither a remaining line nor the `''` read at end of file is a results line -/
+theorem skip_to_results_line_spins_iff (e : Int) (rest : List Str) (n k : Nat) :
+    skipToResultsLineL e rest n k = none ↔ (isResultsLine [] e = false ∧ ∀ l ∈ rest, isResultsLine (strip l) e = false) :=
+  Proofs.SeriesTerm.skipToResultsLineL_spins_iff e rest n k
+
+-- on the two-time file above the call returns; cut after the keyword line of the second result (no row line left) it does not,
+-- and the position that spins is the second one (the first was read)
+private def exCut : Rd := { exEnv with all := exR1 ++ exR2.take 3, allpos := #[⟨0, exR1 ++ exR2.take 3⟩, ⟨6, exR2.take 3⟩] }
+example : (match historyC exItems false exCut ⟨exCut.pos, 0⟩ with | .error .diverges => true | _ => false) = true := by decide +kernel
+example : (match orderedSelection exCut exItems with
+    | .ok tsel => (match valuesAt exCut tsel false (fileTablesOf exCut) exCut ⟨⟨6, exR2.take 3⟩, false⟩ 1,
+                         valuesAt exCut tsel false (fileTablesOf exCut) exCut ⟨⟨0, exR1 ++ exR2.take 3⟩, false⟩ 0 with
+        | .error .diverges, .ok _ => true
+        | _, _ => false)
+    | _ => false) = true := by decide +kernel
+example : skipToResultsLineL 2 [" EEEEE\n".toList, "\n".toList] 0 1 = none := by decide
 
 /-! ### afterwards the reader still shows the same current time and tables as before the call -/
 
